@@ -6,7 +6,10 @@
    (K-outer) histories (keys, pairs, ephemerons, file ports, filenos, drops, explicit closes, collections)
        run by harness/c16_hist.scm on the real binary (default and asan variants) and by the extracted
        history machine (coq/C16/History.v): broken flag, key identity, value identity, open descriptors.
-   plus a loop dropping unclosed ports under a small RLIMIT_NOFILE."""
+   plus a loop dropping unclosed ports under a small RLIMIT_NOFILE.
+   round 2: harness/embed_c16.c (bare-context C embedding, address-controlled layouts: layout / frag families, outer + dumps);
+   descriptor operations Y U T R Q W XI XO Z in the history language; (G) control skeleton of sexp_mark_weak_extras and the
+   binding of close-file-descriptor."""
 import os, re, resource, subprocess, tempfile
 from vlib import build as B
 
@@ -365,14 +368,38 @@ def quad_class(order, j, ms):
     return (len(roles), tuple(roles[nm] for nm in sorted(roles, key=lambda nm: pos[nm])))
 
 
-def layout_family(ctx, exe, d, thorough):
+def gen_frag(rng):
+    """descriptor owners and ephemerons placed BEHIND a large free chunk: a big block is allocated first and dropped and
+    collected before the objects behind it become garbage, so every heap walk of the following collections (ephemeron
+    scan, weak reset, finalisers) has to step over a large hole and go on"""
+    ops = []
+    ns = 12
+    ops.append("B,0,%d" % rng.choice([9000, 20000, 70000, 150000]))
+    k = rng.randrange(1, 5)
+    for i in range(k):
+        ops.append("O,%d" % (1 + i))
+    ops += ["K,6", "K,7", "E,8,6,7"]
+    if rng.random() < 0.5:
+        ops += ["O,9", "E,10,7,9", "D,9"]
+    if rng.random() < 0.5:
+        ops.append("B,11,%d" % rng.choice([9000, 70000]))
+    ops += ["D,0", "G"]
+    ops += ["D,7", "G"]
+    ops += ["D,%d" % (1 + i) for i in range(k) if rng.random() < 0.8]
+    ops += ["G", "D,11", "G", "D,6", "G"]
+    return (ns, ops, "frag")
+
+
+def layout_family(ctx, exe, d, thorough, corpus=()):
     """K-outer on the C embedding (bare context: only the history allocates), with the achieved addresses checked"""
     emb = B.cc_embed(d, os.path.join(HERE, "..", "harness", "embed_c16.c"), os.path.join(d, "embed_c16"))
-    lay = gen_layouts(ctx.rng, thorough)
+    lay = list(corpus) + gen_layouts(ctx.rng, thorough) + [gen_frag(ctx.rng) for _ in range(12 if not thorough else 400)]
     addrs = {}
     outer(ctx, exe, d, "embed", lay, cmd=[emb], addrs=addrs)
     hit, classes = 0, set()
     for i, h in enumerate(lay):
+        if len(h) < 4:
+            continue
         got = layout_achieved(h, addrs.get(i))
         if got is None:
             continue
@@ -382,10 +409,10 @@ def layout_family(ctx, exe, d, thorough):
             classes.add(quad_class(got, j, h[3]["ms"]))
     n4 = len([c for c in classes if c[0] == 4])
     n3 = len([c for c in classes if c[0] == 3])
-    ctx.cov["layout_histories"] = len(lay)
+    ctx.cov["layout_histories"] = len([h for h in lay if len(h) == 4])
     ctx.cov["layout_address_order_as_requested"] = hit
     ctx.cov["layout_quad_orders_achieved"] = "%d/24 orders of (E,V,E',K'), %d/6 orders of (E,V=K',E')" % (n4, n3)
-    ctx.note("layout family: %d histories on the bare-context embedding; requested address order achieved in %d; achieved relative "
+    ctx.note("layout family: %d histories (with the frag family and the embed corpus) on the bare-context embedding; requested address order achieved in %d; achieved relative "
              "orders of (ephemeron, value, dependent ephemeron, its key): %d of 24 (+ %d of 6 with value = key), read from the "
              "addresses the harness reports" % (len(lay), hit, n4, n3))
     if n4 < 24 or n3 < 6:
@@ -850,7 +877,14 @@ def run(ctx):
                        "and asan builds and by the extracted history machine; every collection compares, for every ephemeron ever "
                        "made, broken?, key identity and a depth-6 fingerprint of the value, and the number of open descriptors; a "
                        "history is non-trivial when it makes an ephemeron or opens a descriptor, distinct by (variant, text, gc schedule). "
-                       "inner: whole-heap dumps before/after the phases of real collections replayed through the extracted gc model.")
+                       "inner: whole-heap dumps before/after the phases of real collections replayed through the extracted gc model. "
+                       "round 2: descriptor family (fds 14% of the random stream + 40 scripted scenarios): every explicit close "
+                       "(close-port/-input-/-output-port over shared filenos, close-file-descriptor on the fileno object, dup, dup2/renumber), "
+                       "reuse of the number by a new pipe, collections, with per-owner /proc/self/fd identity and a write/read through the "
+                       "new pipe; layout family on a bare-context C embedding: ephemeron chains of length 2-5 whose objects are placed at "
+                       "every relative ADDRESS order of (ephemeron, value, dependent ephemeron, its key) via placeholders and recycled holes, "
+                       "values reaching the next key through 0-3 ordinary objects, achieved order read back from the harness and the heap "
+                       "dumps; frag family: descriptor owners and ephemerons behind a large free chunk.")
     d = ctx.build("default")
     from gen import c16_layout
     try:
@@ -864,14 +898,14 @@ def run(ctx):
     rng = ctx.rng
     # corpus first
     corpus_dir = os.path.join(HERE, "..", "corpus", "C16")
-    corpus = []
+    corpus, corpus_embed = [], []
     if os.path.isdir(corpus_dir):
         for f in sorted(os.listdir(corpus_dir)):
             for line in open(os.path.join(corpus_dir, f)):
                 line = line.strip()
                 if line and not line.startswith("#"):
                     ns, ops = line.split(" ", 1)
-                    corpus.append((int(ns), ops.split(";"), "corpus:" + f))
+                    (corpus_embed if f.startswith("embed") else corpus).append((int(ns), ops.split(";"), "corpus:" + f))
     n_def, n_asan, n_sched = (160, 40, 30) if not thorough else (8000, 2000, 2000)
     hists = legalise(ctx, exe, corpus + gen_fd_scenarios(rng) + gen_histories(rng, n_def))
     mobs, iobs = outer(ctx, exe, d, "default", hists)
@@ -879,7 +913,7 @@ def run(ctx):
         ctx.sample(dict(kind="outer", history=hist_line(h), family=h[2], model=m, impl=i))
     # every relative address order of the objects the ephemeron scan depends on
     try:
-        emb, lay, lay_addrs = layout_family(ctx, exe, d, thorough)
+        emb, lay, lay_addrs = layout_family(ctx, exe, d, thorough, corpus_embed)
     except B.BuildError as e:
         ctx.broken("build:embed_c16", str(e)[-800:])
         emb = None
